@@ -184,7 +184,7 @@ Definition assign (c : ctx) (dstf : fval) (v : val) : option fval :=
       | VBytes b | VStr b => Some (FBool (is_true_text b))
       | VInt z | VUint z => Some (FBool (negb (Z.eqb z 0)))
       | VFloat t => Some (FBool (negb (float_is_zero t)))
-      | VNode JNull => None
+      | VNode JNull | VNode JAbsent => None
       | VNode j => Some (FBool (jbool j))
       | _ => None
       end
@@ -193,7 +193,7 @@ Definition assign (c : ctx) (dstf : fval) (v : val) : option fval :=
       | VInt z => Some (FInt bits (wrap_int bits z))
       | VBytes b | VStr b =>
           match atoi_re b with Some z => Some (FInt bits (wrap_int bits z)) | None => None end
-      | VNode JNull => None
+      | VNode JNull | VNode JAbsent => None
       | VNode j => Some (FInt bits (wrap_int bits (match jint j with Some z => z | None => 0%Z end)))
       | _ => None
       end
@@ -202,7 +202,7 @@ Definition assign (c : ctx) (dstf : fval) (v : val) : option fval :=
       | VUint z => Some (FUint bits (wrap_uint bits z))
       | VBytes b | VStr b =>
           match atou_re b with Some z => Some (FUint bits (wrap_uint bits z)) | None => None end
-      | VNode JNull => None
+      | VNode JNull | VNode JAbsent => None
       | VNode j => Some (FUint bits (wrap_uint bits (match juint j with Some z => z | None => 0%Z end)))
       | _ => None
       end
@@ -211,7 +211,7 @@ Definition assign (c : ctx) (dstf : fval) (v : val) : option fval :=
       | VFloat t => Some (FFloat bits t)
       | VBytes b | VStr b =>
           match atof_re b with Some t => Some (FFloat bits t) | None => None end
-      | VNode JNull => None
+      | VNode JNull | VNode JAbsent => None
       | VNode (JNum t) => if is_plain_dec t then Some (FFloat bits (norm_dec t)) else Some (FFloat bits (bs "?"))
       | VNode _ => Some (FFloat bits [48%N])
       | _ => None
@@ -468,7 +468,7 @@ Definition ctx_set_path (U : ufuns) (c : ctx) (path : bytes) (x : val) (insName 
                     end
                 | [] =>
                     match x with
-                    | VNode JNull => (c, None)
+                    | VNode JNull | VNode JAbsent => (c, None)
                     | VNode j => (ctx_set c name x InsVector, None)
                     | _ => (ctx_set c name x InsStatic, None)
                     end
@@ -511,7 +511,7 @@ Definition mod_is_empty (c : ctx) (v : val) : bool :=
   | VBool b => negb b
   | VInt z | VUint z => Z.eqb z 0
   | VFloat t => float_is_zero t
-  | VNode JNull => true
+  | VNode JNull | VNode JAbsent => true
   | VNode (JArr xs) => match xs with [] => true | _ => false end
   | VNode (JObj xs) => match xs with [] => true | _ => false end
   | VNode j => match jbytes j with [] => true | _ => false end
@@ -770,7 +770,7 @@ Fixpoint body (l : list node) (c : ctx) (lazy : bool) : ctx * bodyres :=
       | (c', None) => body r c' lazy
       | (c', Some ELBreak) => body r c' true
       | (c', Some EBreak) => (c', BBreak)
-      | (c', Some ECont) => (c', BCont)
+      | (c', Some ECont) => (c', if lazy then BLazy else BCont)
       | (c', Some e) => (c', BFail e)
       end
   end.
@@ -879,7 +879,16 @@ Definition rloop (n : node) (c : ctx) : ctx :=
           match i with
           | InsVector =>
               match v with
-              | VNode j => vloop n (jchildren (jget j rest)) 0 c false
+              | VNode j =>
+                  (* Node.Each on a node without children that is not the null node (an
+                     empty array or object, a scalar) visits whatever node the document
+                     index holds at its offset: dependency behaviour outside the model
+                     (known finding KF-C05-childless). *)
+                  match jget j rest with
+                  | JAbsent => c
+                  | JArr (_ :: _) | JObj (_ :: _) => vloop n (jchildren (jget j rest)) 0 c false
+                  | _ => w_cerr c (Some EUnsupported)
+                  end
               | _ => c
               end
           | InsObj =>
